@@ -11,6 +11,9 @@ pub fn install_hook() {
     std::panic::set_hook(Box::new(|info| {
         COUNT.fetch_add(1, SeqCst);
         let msg = payload_str(info.payload());
+        if std::env::var("VERIF_LOUD").is_ok() {
+            eprintln!("PANIC: {} at {:?}", msg, info.location());
+        }
         if let Ok(mut l) = LAST.lock() {
             *l = msg;
         }
